@@ -46,6 +46,7 @@ Faults(r, rep) ==
     \cup { <<e, "inf-low">> : e \in { e \in Ev : ~InfBucketLow(snap[r][e], Nb(e), R[e]) } }
     \cup { <<e, "inf-high">> : e \in { e \in Ev : ~InfBucketHigh(hi[e], Nb(e), R[e]) } }
     \cup { <<e, "inf-monotone">> : e \in { e \in Ev : ~InfBucketMonotone(last[r][e], R[e], Nb(e)) } }
+    \cup { <<e, "overflow-exceeds-count">> : e \in { e \in Ev : ~OverflowWithinCount(Nb(e), R[e]) } }
 
 Step(rec) ==
     \/ /\ rec.k = "obs" /\ rec.ev = "inv"
